@@ -17,26 +17,24 @@ namespace MakoModel.Cache
 variable {R : Type} [DecidableEq R]
 
 /-- how an entry came into the back end -/
-inductive Prov
-  | creation (fn : Str) (env : Env)     -- creation function of callable `fn`, run in scope `env`
+inductive Prov (R : Type)
+  | creation (c : Creation R)            -- a creation function: section, scope, context and pre-state it ran in
   | manual                               -- `cache.set`
-  deriving DecidableEq, Repr
 
-structure Entry where
+structure Entry (R : Type) where
   val : Str
   owner : Nat                            -- index of the template that put it there
-  prov : Prov
-  deriving DecidableEq, Repr
+  prov : Prov R
 
 structure Spec (R : Type) where
-  store : Key R → Option Entry
+  store : Key R → Option (Entry R)
   enabled : Nat → Bool
 
 def Spec.init (w : World R) : Spec R :=
   { store := fun _ => none
     enabled := fun t => match w.tmpls[t]? with | some tm => tm.enabled0 | none => true }
 
-def Spec.put (s : Spec R) (K : Key R) (e : Entry) : Spec R :=
+def Spec.put (s : Spec R) (K : Key R) (e : Entry R) : Spec R :=
   { s with store := fun K' => if K' = K then some e else s.store K' }
 
 def Spec.del (s : Spec R) (K : Key R) : Spec R :=
@@ -44,7 +42,7 @@ def Spec.del (s : Spec R) (K : Key R) : Spec R :=
 
 /-- effect of one event on what the back end holds / on `cache_enabled` -/
 def Spec.step (be : Backend R) (s : Spec R) : Ev R → Spec R
-  | .created tid fn K v env => s.put K ⟨v, tid, .creation fn env⟩
+  | .created tid _ K v c => s.put K ⟨v, tid, .creation c⟩
   | .call tid (.set v) c k kw => s.put (c, be.regionOf kw, k) ⟨v, tid, .manual⟩
   | .call _ .inv c k kw => s.del (c, be.regionOf kw, k)
   | .enabledSet t b => { s with enabled := fun t' => if t' = t then b else s.enabled t' }
@@ -54,6 +52,10 @@ def Spec.step (be : Backend R) (s : Spec R) : Ev R → Spec R
 def replay (w : World R) : List (Ev R) → Spec R
   | [] => Spec.init w
   | e :: older => (replay w older).step w.be e
+
+/-- value of the *uncached* section `h` with body `body` in scope `env'` and state `st`: its content through its filter -/
+def sectionValue (P : Params R) (env' : Env) (h : Hdr) (body : Items) (st : St R) : Str :=
+  finish h (run P env' body st).1
 
 /-- *body runs iff missing*: the wrapper bypasses the back end iff caching is disabled; otherwise it serves the
     stored value iff there is one and runs the body iff there is none -/
@@ -77,6 +79,25 @@ def evOwn (s : Spec R) : Ev R → Bool
     | none => true
   | _ => true
 
+/-- *replay, in full*: what is served under a key is the value of the entry the specification state holds there, and
+    if that entry was put by a creation function – the LAST completed creation on that key – the value is the output of
+    the *uncached* section recorded there (header `c.h`, body `c.body`), in the scope `c.env` and render context `c.ctx`
+    of that creation, from the store / flags / memos `c.pre` the back end was in when it called the creation function,
+    for the template that created it. -/
+def evCreation (w : World R) (s : Spec R) : Ev R → Prop
+  | .enter _ _ K (.hit v) =>
+    ∃ e, s.store K = some e ∧ e.val = v ∧
+      match e.prov with
+      | .manual => True
+      | .creation c => ∃ tm, w.tmpls[e.owner]? = some tm ∧
+          v = sectionValue ⟨w.be, tm, e.owner, c.ctx⟩ c.env c.h c.body c.pre.toSt
+  | _ => True
+
+/-- the monitor for a `Prop`-valued check -/
+def traceAllP (w : World R) (chk : Spec R → Ev R → Prop) : List (Ev R) → Prop
+  | [] => True
+  | e :: older => chk (replay w older) e ∧ traceAllP w chk older
+
 /-- the monitor: `chk` holds for every event against the specification state replayed from the events before it -/
 def traceAll (w : World R) (chk : Spec R → Ev R → Bool) : List (Ev R) → Bool
   | [] => true
@@ -97,10 +118,6 @@ def hdrs : Items → List Hdr
 /-- the whole call tree of a template, page included -/
 def Tmpl.tree (tm : Tmpl) : Items := .inv tm.page none false tm.body .nil
 
-/-- value of the *uncached* section `h` with body `body` in scope `env'` and state `st`: its content through its filter -/
-def sectionValue (P : Params R) (env' : Env) (h : Hdr) (body : Items) (st : St R) : Str :=
-  finish h (run P env' body st).1
-
 /-- `[…].reverse.lookup` : the last binding of `k` -/
 def aGetLast {β : Type} (a : List (Str × β)) (k : Str) : Option β := aGet a.reverse k
 
@@ -110,5 +127,21 @@ def Op.isCallableInvalidation : Op → Bool
   | .invalidateDef _ _ => true
   | .invalidateClosure _ _ => true
   | _ => false
+
+/-- the callable (template, `__M_defname`) an `invalidate_body/def/closure` addresses -/
+def Op.invalidatedCallable : Op → Option (Nat × Str)
+  | .invalidateBody t => some (t, MakoModel.Generated.Cache.invBodyDefname)
+  | .invalidateDef t d => some (t, MakoModel.Generated.Cache.invDefDefnamePrefix ++ d)
+  | .invalidateClosure t d => some (t, d)
+  | _ => none
+
+/-- no `invalidate_body/def/closure` is issued for a callable before that callable's first trip to the back end
+    (i.e. before it has a `_def_regions` entry) -/
+def noEarlyInvalidation (w : World R) : St R → List Op → Bool
+  | _, [] => true
+  | st, op :: ops =>
+    (match op.invalidatedCallable with
+     | some (t, d) => (aGet (st.regions t) d).isSome
+     | none => true) && noEarlyInvalidation w (step w st op).2 ops
 
 end MakoModel.Cache
